@@ -24,7 +24,8 @@ META = {
         "rely on, language inclusion of the documented list spellings, and "
         "the routing of every section match through SecUnpacker into one "
         "tract per element. Decides these clauses, not the expansion of a "
-        "concrete list."),
+        "concrete list."
+        " Also: SecFinder takes over the SecUnpacker's flags, find_sec and construct_tracts walk the unpacked list unfiltered, both unpackers derive found_through from thru_rightmost alone."),
     'families': ['RX-LANG', 'RX-GROUPS', 'RANGE', 'SIB', 'PAIR', 'ROUTE', 'FORWARD', 'DEADPARAM', 'SIB-DEFAULTS'],
 }
 
